@@ -22,8 +22,11 @@ class OnEvent:
             case events.OnEndCmdloop():
                 await ahook.on_end_cmdloop(context=context, event=event)
             case events.OnStartPrompt():
+                # Commands are accepted only for the prompts known to be open.
+                context.open_prompts.add((event.trace_no, event.prompt_no))
                 await ahook.on_start_prompt(context=context, event=event)
             case events.OnEndPrompt():
+                context.open_prompts.discard((event.trace_no, event.prompt_no))
                 await ahook.on_end_prompt(context=context, event=event)
             case events.OnWriteStdout():
                 await ahook.on_write_stdout(context=context, event=event)
